@@ -1414,10 +1414,17 @@ func (s *BgpServer) processRTCMembership(peer *peer, path *table.Path) {
 	fs := peerNonRTCFamilies(peer)
 	s.rtcVPNCandidates(peer, path.IsWithdraw, rt, fs, func(paths []*table.Path, filtered []*table.Path) {
 		if path.IsWithdraw {
-			// Skips filtering: paths are already scoped to this RT and withdrawals
-			// do not need path attributes.
-			peer.updateRoutes(filtered...)
-			sendfsmOutgoingMsg(peer, filtered)
+			// The paths are scoped to the withdrawn RT, but a path may carry
+			// another RT the peer still has a membership for: keep those.
+			withdrawals := make([]*table.Path, 0, len(filtered))
+			for _, p := range filtered {
+				if peer.interestedIn(p) {
+					continue
+				}
+				withdrawals = append(withdrawals, p)
+			}
+			peer.updateRoutes(withdrawals...)
+			sendfsmOutgoingMsg(peer, withdrawals)
 			return
 		}
 		if peer.getRtcEORWait() {
